@@ -58,6 +58,7 @@ fn main() {
         "check" => cmd_check(&args),
         "replay" => cmd_replay(&args),
         "determinism" => cmd_determinism(&args),
+        "seqscan" => cmd_seqscan(&args),
         "show" => cmd_show(&args),
         _ => {
             eprintln!("usage: fgsim check|replay|determinism|show ...");
@@ -268,16 +269,39 @@ fn cmd_check(args: &[String]) -> i32 {
             Err(_) => false,
         };
         if !confirmed {
-            println!("HARNESS-ERROR: violation of {} at index {index} did not reproduce from {path} in a fresh process", prop.name());
-            if let Ok(o) = o {
-                println!("{}", String::from_utf8_lossy(&o.stdout));
+            // The case alone does not reproduce: the behaviour depends on state outside
+            // the case (something the library keeps across calls - a static, a
+            // thread-local).  Fall back to a *history replay*: the run indices 0..=j
+            // executed in order by one thread of a fresh process.
+            let exe = std::env::current_exe().unwrap();
+            let hist = format!("{replay_dir}/{}-{}-{}-history.json", prop.name(), build_tag(), base);
+            let scan = std::process::Command::new(&exe)
+                .args(["seqscan", "--prop", prop.name(), "--seed", &base.to_string(), "--upto", "60000", "--time-limit", "120", "--out", &hist])
+                .args(if enum_from != u64::MAX { vec!["--enum-from".to_string(), enum_from.to_string()] } else { vec![] })
+                .output();
+            let scan_ok = matches!(&scan, Ok(o) if o.status.code() == Some(1));
+            let confirmed2 = scan_ok
+                && matches!(std::process::Command::new(&exe).arg("replay").arg(&hist).output(), Ok(o) if o.status.code() == Some(1));
+            if confirmed2 {
+                let so = String::from_utf8_lossy(&scan.as_ref().unwrap().stdout).to_string();
+                print!("{so}");
+                println!("note: the violating case does not reproduce in isolation ({path}); it depends on state kept across calls and is reproduced by the history replay");
+                println!("VIOLATION property={} replay={}", prop.name(), hist);
+                violation_json = json!({"class": uv.class, "message": uv.msg, "replay": hist, "run_index": index, "minimised": false, "history_replay": true});
+                code = 1;
+            } else {
+                println!("HARNESS-ERROR: violation of {} at index {index} did not reproduce from {path} in a fresh process, nor from a sequential history", prop.name());
+                if let Ok(o) = o {
+                    println!("{}", String::from_utf8_lossy(&o.stdout));
+                }
+                return 2;
             }
-            return 2;
+        } else {
+            println!("violation: class={} run_index={index} build={} :: {}", uv.class, build_tag(), uv.msg);
+            println!("VIOLATION property={} replay={}", prop.name(), path);
+            violation_json = json!({"class": uv.class, "message": uv.msg, "replay": path, "run_index": index, "minimised": minimised});
+            code = 1;
         }
-        println!("violation: class={} run_index={index} build={} :: {}", uv.class, build_tag(), uv.msg);
-        println!("VIOLATION property={} replay={}", prop.name(), path);
-        violation_json = json!({"class": uv.class, "message": uv.msg, "replay": path, "run_index": index, "minimised": minimised});
-        code = 1;
     }
 
     let known_hits = known_hits.into_inner().unwrap();
@@ -323,6 +347,9 @@ fn cmd_replay(args: &[String]) -> i32 {
     if v.get("format").and_then(|f| f.as_str()) == Some("fgsim-seq-replay-1") {
         return seq::replay(&v, path);
     }
+    if v.get("format").and_then(|f| f.as_str()) == Some("fgsim-history-replay-1") {
+        return replay_history(&v, path);
+    }
     let Some(rf) = parse_replay(&v) else {
         eprintln!("not a replay file: {path}");
         return 2;
@@ -359,6 +386,78 @@ fn cmd_replay(args: &[String]) -> i32 {
             0
         }
     }
+}
+
+/// Executes run indices 0.. in order in this one thread until a violation shows;
+/// writes a history replay file.  (Used when a violation depends on state that the
+/// library keeps across calls.)
+fn cmd_seqscan(args: &[String]) -> i32 {
+    let Some(prop) = arg(args, "--prop").and_then(Prop::from_str) else {
+        return 2;
+    };
+    if prop == Prop::C14 {
+        return 2;
+    }
+    let base = base_seed(args);
+    let upto: u64 = arg(args, "--upto").and_then(|s| s.parse().ok()).unwrap_or(10_000);
+    let enum_from: u64 = arg(args, "--enum-from").and_then(|s| s.parse().ok()).unwrap_or(u64::MAX);
+    let tl: u64 = arg(args, "--time-limit").and_then(|s| s.parse().ok()).unwrap_or(600);
+    let t0 = Instant::now();
+    for index in 0..=upto {
+        if t0.elapsed() > Duration::from_secs(tl) {
+            break;
+        }
+        let ex = exec_index(prop, base, index, enum_from);
+        if ex.harness_error.is_some() {
+            return 2;
+        }
+        if let Some(v) = &ex.violation {
+            println!("violation: class={} history=0..={index} build={} :: {}", v.class, build_tag(), v.msg);
+            if let Some(out) = arg(args, "--out") {
+                let j = json!({
+                    "format": "fgsim-history-replay-1",
+                    "property": prop.name(),
+                    "violation_class": v.class,
+                    "message": v.msg,
+                    "verif_seed": base,
+                    "feature_interruptible": FEATURE_I,
+                    "execute_run_indices_in_order": {"from": 0, "to": index},
+                    "enum_from": if enum_from == u64::MAX { Value::Null } else { json!(enum_from) },
+                    "why": "the violating case does not fail in isolation: the library keeps state across calls; the run indices are executed in order by one thread of a fresh process",
+                    "last_case": ex.case.to_json(),
+                    "last_trace": ex.result.drives.iter().map(|d| runner::events_json(&d.events)).collect::<Vec<_>>(),
+                });
+                let _ = std::fs::write(out, serde_json::to_string_pretty(&j).unwrap());
+            }
+            return 1;
+        }
+    }
+    0
+}
+
+fn replay_history(v: &Value, path: &str) -> i32 {
+    let (Some(prop), Some(base), Some(to)) = (
+        v.get("property").and_then(|p| p.as_str()).and_then(Prop::from_str),
+        v.get("verif_seed").and_then(|s| s.as_u64()),
+        v.get("execute_run_indices_in_order").and_then(|r| r.get("to")).and_then(|t| t.as_u64()),
+    ) else {
+        return 2;
+    };
+    if v.get("feature_interruptible").and_then(|b| b.as_bool()) != Some(FEATURE_I) {
+        println!("WRONG-BUILD");
+        return 3;
+    }
+    let enum_from = v.get("enum_from").and_then(|e| e.as_u64()).unwrap_or(u64::MAX);
+    for index in 0..=to {
+        let ex = exec_index(prop, base, index, enum_from);
+        if let Some(x) = &ex.violation {
+            println!("replayed: class={} at history index {index} of 0..={to} :: {}", x.class, x.msg);
+            println!("VIOLATION property={} replay={}", prop.name(), path);
+            return 1;
+        }
+    }
+    println!("replayed: no violation in history 0..={to}");
+    0
 }
 
 fn cmd_determinism(args: &[String]) -> i32 {
